@@ -10,5 +10,6 @@ CONSTANTS
   MaxOps = 4
   MaxHeads = 2
   KeepHist = TRUE
+  InactiveRefusedAtOnce = FALSE
 INVARIANTS NoPanic
 CHECK_DEADLOCK FALSE
